@@ -11,9 +11,9 @@ from setigen.voltage import antenna as v_antenna
 
 ZMAX = 6.5
 NPIX = 60000
-MEAN_TAB = np.array([100.0 + i for i in range(10)])
-STD_TAB = np.array([10.0 + 0.5 * i for i in range(10)])
-MIN_TAB = np.array([95.0 + i for i in range(10)])        # about half a deviation below the mean: many samples are truncated
+MEAN_TAB0 = np.array([100.0 + i for i in range(10)])
+STD_TAB0 = np.array([10.0 + 0.5 * i for i in range(10)])
+MIN_TAB0 = np.array([95.0 + i for i in range(10)])        # about half a deviation below the mean: many samples are truncated
 
 
 class Div(Exception):
@@ -58,8 +58,14 @@ def default_tables(dt):
     return t[:, 0], t[:, 1], t[:, 2]
 
 
-def replay_frame(beh, seed):
+SCALES = (1.0, 4.0e6, 1.0e-3, 1.0e-10)          # intensity units: arbitrary, counts of a real backend, flux-like small numbers
+
+
+def replay_frame(beh, seed, scale=1.0):
+    """scale: physical unit of the abstract means / deviations / table entries / signal level (the property is
+    scale free; power-of-ten scales keep nothing exact, so every comparison below is relative)."""
     geo, ks, steps = beh["geo"], beh["k"], beh["steps"]
+    MEAN_TAB, STD_TAB, MIN_TAB = MEAN_TAB0 * scale, STD_TAB0 * scale, MIN_TAB0 * scale
     T = geo["T"]
     F = NPIX // T
     dt = geo["dt2"] / 2.0
@@ -73,7 +79,7 @@ def replay_frame(beh, seed):
         name = act["name"]
         if name == "Done":
             break
-        if name in ("StreamAddNoise", "BgAddNoise"):
+        if name.startswith("Stream") or name.startswith("Bg"):
             continue
         before = fr.data.copy()
         est_before = (fr.noise_mean, fr.noise_std)
@@ -81,7 +87,7 @@ def replay_frame(beh, seed):
             kind = act["kind"]
             floor = None
             if name == "AddNoise":
-                m, s = float(act["mean"]), float(act["std"])
+                m, s = float(act["mean"]) * scale, float(act["std"]) * scale
                 if kind == "chi2":
                     noise = fr.add_noise(x_mean=m, noise_type="chi2")
                 elif kind == "gaussian":
@@ -147,7 +153,7 @@ def replay_frame(beh, seed):
                             return Div("shared_index", "mean and std from one table row", [m, s], n)
                         if kind == "truncated":
                             lo = float(noise.min())
-                            rows = [i for i in range(10) if MIN_TAB[i] <= lo + 1e-12]
+                            rows = [i for i in range(10) if MIN_TAB[i] <= lo + 1e-12 * scale]
                             if not rows:
                                 return Div("truncated_floor", ">= an entry of the min table", lo, n)
                             if act["share"]:
@@ -155,7 +161,7 @@ def replay_frame(beh, seed):
                                 floor = float(MIN_TAB[i])
                                 if lo < floor:
                                     return Div("truncated_floor.shared", floor, lo, n)
-                                if abs(lo - floor) > 1e-9:
+                                if abs(lo - floor) > 1e-9 * scale:
                                     return Div("shared_index.min", "floor from the same table row %d" % i, lo, n)
             elif e[0] == "estimated":
                 c = sigma_clip(fr.data, sigma=3, maxiters=5, masked=False)
@@ -181,7 +187,7 @@ def replay_frame(beh, seed):
             if np.any(fr.data != 0) or fr.noise_mean != 0 or fr.noise_std != 0:
                 return Div("zero_data", [0, 0], [fr.noise_mean, fr.noise_std], n)
         elif name == "AddSignal":
-            fr.add_constant_signal(f_start=fr.get_frequency(F // 2), drift_rate=0.0, level=50.0, width=2 * df, f_profile_type="gaussian")
+            fr.add_constant_signal(f_start=fr.get_frequency(F // 2), drift_rate=0.0, level=50.0 * scale, width=2 * df, f_profile_type="gaussian")
             if (fr.noise_mean, fr.noise_std) != est_before:
                 return Div("signal_leaves_estimate", list(est_before), [fr.noise_mean, fr.noise_std], n)
         elif name == "QuerySnr":
@@ -207,27 +213,62 @@ def replay_frame(beh, seed):
 
 
 def replay_streams(beh, seed):
+    """Voltage side.  Model variances are integers; update_noise() replaces a book-kept deviation by an estimate from
+    samples, so after an update the expectation carries the measured correction (corr / bgcorr = measured - model) and
+    the measured value itself is judged statistically."""
     steps = beh["steps"]
     arr = v_antenna.MultiAntennaArray(num_antennas=2, sample_rate=1024.0, fch1=0, ascending=True, num_pols=2, delays=[0, 1], seed=seed)
     used = False
+    corr = [[0.0, 0.0], [0.0, 0.0]]
+    bgcorr = [0.0, 0.0]
+    NEST = 20000
+    src_rng = np.random.default_rng(seed + 77)
+
+    def source(std):
+        return lambda ts: std * src_rng.standard_normal(len(ts))
+
     for n, st in enumerate(steps):
         act = st["act"]
         name = act["name"]
         if name == "StreamAddNoise":
             arr.antennas[act["a"] - 1].streams[act["p"] - 1].add_noise(0.0, float(act["std"]))
-            used = True
         elif name == "BgAddNoise":
             arr.bg_streams[act["p"] - 1].add_noise(0.0, float(act["std"]))
-            used = True
+        elif name == "StreamAddSource":
+            arr.antennas[act["a"] - 1].streams[act["p"] - 1].add_signal(source(float(act["std"])))
+        elif name == "BgAddSource":
+            arr.bg_streams[act["p"] - 1].add_signal(source(float(act["std"])))
+        elif name == "StreamUpdateNoise":
+            a, p = act["a"] - 1, act["p"] - 1
+            stream = arr.antennas[a].streams[p]
+            clock = (stream.t_start, stream.start_obs)
+            stream.update_noise(stats_calc_num_samples=NEST)
+            if (stream.t_start, stream.start_obs) != clock:
+                return Div("update_noise.clock", list(clock), [stream.t_start, stream.start_obs], n)
+            want = float(st["own"][a][p])
+            got = float(stream.noise_std) ** 2
+            # the estimate is taken from the stream's own samples (the shared background is book-kept separately)
+            if abs(math.sqrt(got) - math.sqrt(want)) > ZMAX * math.sqrt(want / (2.0 * NEST)):
+                return Div("update_noise.estimate", math.sqrt(want), math.sqrt(got), n)
+            corr[a][p] = got - want
+        elif name == "BgUpdateNoise":
+            p = act["p"] - 1
+            arr.bg_streams[p].update_noise(stats_calc_num_samples=NEST)
+            want = float(st["bg"][p])
+            got = float(arr.bg_streams[p].noise_std) ** 2
+            if abs(math.sqrt(got) - math.sqrt(want)) > ZMAX * math.sqrt(want / (2.0 * NEST)):
+                return Div("bg_update_noise.estimate", math.sqrt(want), math.sqrt(got), n)
+            bgcorr[p] = got - want
         elif name == "Done":
             break
         else:
             continue
+        used = True
         for a in range(2):
             for p in range(2):
                 s = arr.antennas[a].streams[p]
                 got = [float(s.noise_std) ** 2, float(s.bg_noise_std) ** 2, float(s.get_total_noise_std()) ** 2]
-                want = [st["own"][a][p], st["bg"][p], st["total"][a][p]]
+                want = [st["own"][a][p] + corr[a][p], st["bg"][p] + bgcorr[p], st["total"][a][p] + corr[a][p] + bgcorr[p]]
                 if any(abs(g - w) > 1e-9 * max(1.0, w) for g, w in zip(got, want)):
                     return Div("quadrature[%d][%d]" % (a, p), {"own_var": want[0], "bg_var": want[1], "total_var": want[2]},
                                {"own_var": got[0], "bg_var": got[1], "total_var": got[2]}, n)
@@ -236,23 +277,25 @@ def replay_streams(beh, seed):
     last = [s for s in steps if s["act"]["name"] != "Done"][-1]
     # refreshing the background estimate from samples keeps every antenna stream's copy equal to the background's own
     for p in range(2):
-        if last["bg"][p] > 0:
-            arr.bg_streams[p].update_noise(stats_calc_num_samples=20000)
+        realised_bg = last["bg"][p] + last["xbg"][p]
+        if realised_bg > 0:
+            arr.bg_streams[p].update_noise(stats_calc_num_samples=NEST)
             bgstd = float(arr.bg_streams[p].noise_std)
-            se = math.sqrt(last["bg"][p] / (2.0 * 20000))
-            if abs(bgstd - math.sqrt(last["bg"][p])) > ZMAX * se:
-                return Div("bg_update_noise.estimate", math.sqrt(last["bg"][p]), bgstd, len(steps))
+            se = math.sqrt(realised_bg / (2.0 * NEST))
+            if abs(bgstd - math.sqrt(realised_bg)) > ZMAX * se:
+                return Div("bg_update_noise.estimate", math.sqrt(realised_bg), bgstd, len(steps))
             for a in range(2):
                 s = arr.antennas[a].streams[p]
-                if float(s.bg_noise_std) != bgstd or abs(float(s.get_total_noise_std()) ** 2 - (last["own"][a][p] + bgstd ** 2)) > 1e-9 * (1 + last["total"][a][p]):
+                own_now = last["own"][a][p] + corr[a][p]
+                if float(s.bg_noise_std) != bgstd or abs(float(s.get_total_noise_std()) ** 2 - (own_now + bgstd ** 2)) > 1e-9 * (1 + last["total"][a][p]):
                     return Div("bg_update_noise.propagation", {"bg_std": bgstd}, {"stream_bg_std": float(s.bg_noise_std),
                                                                                 "total": float(s.get_total_noise_std())}, len(steps))
-    # the realised voltages have the book-kept deviation
+    # the realised voltages have the deviation of everything that was added (booked or not)
     arr.reset_start()
     v = arr.get_samples(40000)
     for a in range(2):
         for p in range(2):
-            tot = last["own"][a][p] + float(arr.bg_streams[p].noise_std) ** 2
+            tot = last["own"][a][p] + last["xown"][a][p] + last["bg"][p] + last["xbg"][p]
             if tot > 0:
                 d = moments_ok(np.asarray(v[a][p], dtype=float), 0.0, tot, "voltage[%d][%d]" % (a, p), len(steps))
                 if d is not None and d.field.endswith("variance"):
